@@ -1,11 +1,11 @@
 SPECIFICATION Spec
 CONSTANTS
-  K = 2
-  MaxLeaves = 6
-  MaxDepth = 5
+  K = 4
+  MaxLeaves = 7
+  MaxDepth = 3
   MaxN = 3
   ScratchSize = "code"
-  Finished = "last"
+  Finished = "first"
   EarlyExit = TRUE
 INVARIANT CodesOk
 INVARIANT Refines
